@@ -23,6 +23,7 @@ ASSUMPTIONS = [
     "store.w keys are tuples of str (keys that differ only by type collapse under str() and are excluded); store values are floats or small ints",
     "json.loads(json.dumps(v)) == v for JSON-shaped v (CPython float repr round-trip), and json.dumps is a function of the ordered value",
     "load_latest_snapshot is a function of the file content and the fresh state only (no state carried between calls in one process): checked by histories of several loads of one unchanged file with in-place mutation of every container handed out by earlier loads, plus an object-identity walk",
+    "the .meta sidecar is a function of the write (clock/SOURCE_DATE_EPOCH oracle + frozen marker), not of any sidecar already in the directory: checked through write_snapshot and write_snapshot_auto (full and delta) over directories pre-seeded with foreign sidecars of every shape",
     "atomic-write temporaries have the shape <final>.<8 chars without '.'> (isAtomicTemp) — decided by Lean on every name the real _make_tmp / a writer killed at os.replace leaves behind",
     "snapshot file names: str.isdigit is modelled on ASCII digits; os.path.getmtime does not fail; the listing order is os.listdir's (passed to the model)",
     "the write→load→write fixpoint is claimed for str version_etag and a dict-or-absent graph.meta (a truthy non-dict meta takes the writer's fallback branch; negation witness C06_fixpoint_needs_meta_dict)",
@@ -51,6 +52,7 @@ MODELLED = {
         "_sanitize_gel_for_write", "_sanitize_gel_for_load", "_export_store_for_snapshot",
         "_import_store_from_snapshot", "write_snapshot", "load_latest_snapshot", "_write_sidecar_meta",
         "_set_state_field", "_snapshot_path", "_read_header_payload",
+        "_write_lines", "_deterministic_created_at",
     ],
     "clematis/io/atomic.py": ["_make_tmp"],
 }
@@ -1627,6 +1629,225 @@ class TempComp(Wrapped):
         if case["make_tmp"] > 1:
             yield dict(case, make_tmp=1)
 
+
+# --------------------------------------------------------------------------
+# component 4c: the `.meta` sidecar is a function of the write, not of what was there before
+# --------------------------------------------------------------------------
+
+SIDECAR_SEEDS = ["none", "v0", "v9", "null_marker", "no_marker_extra", "v1_extra", "v1_old_created", "list", "string",
+                 "number", "garbage", "empty", "meta_is_dir", "marker_int", "marker_empty", "nested_extra"]
+
+
+def _seed_sidecar_text(shape: str):
+    """text for a pre-existing sidecar left by 'another writer' (None = nothing / directory)"""
+    old = "2001-02-03T04:05:06Z"
+    return {
+        "v0": json.dumps({"schema_version": "v0", "created_at": old}) + "\n",
+        "v9": json.dumps({"created_at": old, "schema_version": "v9-unknown"}),
+        "null_marker": json.dumps({"schema_version": None, "created_at": old}) + "\n",
+        "no_marker_extra": json.dumps({"created_at": old, "tool": "ops-backup", "n": 3}) + "\n",
+        "v1_extra": json.dumps({"schema_version": "v1", "created_at": old, "note": "kept?"}) + "\n",
+        "v1_old_created": json.dumps({"created_at": old, "schema_version": "v1"}, sort_keys=True) + "\n",
+        "list": "[1, 2, 3]\n", "string": "\"v0\"\n", "number": "7", "garbage": "{\"schema_version\": \"v",
+        "empty": "", "marker_int": json.dumps({"schema_version": 1}), "marker_empty": json.dumps({"schema_version": ""}),
+        "nested_extra": json.dumps({"schema_version": "v0", "created_at": {"at": old}, "x": [1, {"y": None}]}),
+    }.get(shape)
+
+
+def _iso(epoch: int) -> str:
+    import time as _t
+    return _t.strftime("%Y-%m-%dT%H:%M:%SZ", _t.gmtime(epoch))
+
+
+class SidecarComp(Wrapped):
+    name = "snap.sidecar"
+    budget = {"quick": 250, "thorough": 4000, "search": 1500}
+
+    def gen_raw(self, rng, i):
+        writer = rng.choice(["write_snapshot", "write_snapshot", "auto_full", "auto_delta"])
+        n = rng.choice([1, 1, 2, 3])
+        return {"writer": writer, "agent": rng.choice(["A", "agent", "é_1"]),
+                "etag": rng.choice(["e1", "000123", "é"]),
+                "seed": rng.choice(SIDECAR_SEEDS), "seed_baseline": rng.choice(SIDECAR_SEEDS[:8]),
+                "reseed_between": rng.random() < 0.25,     # another writer drops a stale sidecar again between two writes
+                "epochs": [rng.choice([0, 1, 86399, 951782400, 1700000000, 1700000001, 4102444800]) for _ in range(n)],
+                "versions": ["v%d" % k for k in range(n)]}
+
+    @staticmethod
+    def _seed(path_meta: str, shape: str) -> None:
+        if os.path.isdir(path_meta):
+            return
+        if shape == "meta_is_dir":
+            os.makedirs(path_meta, exist_ok=True)
+            return
+        txt = _seed_sidecar_text(shape)
+        if txt is None:
+            return
+        with open(path_meta, "w", encoding="utf-8") as f:
+            f.write(txt)
+
+    def impl_raw(self, case):
+        from clematis.engine import snapshot as S
+        d = _mkdtemp("side_")
+        old_env = os.environ.get("SOURCE_DATE_EPOCH")
+        try:
+            w = case["writer"]
+            if w == "write_snapshot":
+                fname = f"state_{case['agent']}.json"
+            elif w == "auto_full":
+                fname = f"snapshot-{case['etag']}.full.json"
+            else:
+                fname = f"snapshot-{case['etag']}.delta.json"
+            target = os.path.join(d, fname)
+            self._seed(target + ".meta", case["seed"])
+            out: dict = {"fname": fname, "writes": []}
+            base_payload = {"schema_version": "v1", "version_etag": "base", "gel": {"nodes": {}, "edges": {}}, "store": {}}
+            if w == "auto_delta":
+                bname = "snapshot-base0.full.json"
+                self._seed(os.path.join(d, bname) + ".meta", case["seed_baseline"])
+                os.environ["SOURCE_DATE_EPOCH"] = "946684800"
+                bp, _ = S.write_snapshot_auto(d, etag_from=None, etag_to="base0", payload=base_payload)
+                out["baseline"] = self._read_sidecar(bp)
+                out["baseline_ok"] = os.path.basename(bp) == bname
+            st = _State()
+            st.store = None
+            st.graph = {"nodes": {"a": {"id": "a"}}, "edges": [{"src": "a", "dst": "b", "weight": 0.25}]}
+            ctx = NS(turn_id=1, agent_id=case["agent"], cfg={"t4": {"snapshot_dir": d}})
+            for k, ep in enumerate(case["epochs"]):
+                if k and case["reseed_between"] and not os.path.isdir(target + ".meta"):
+                    self._seed(target + ".meta", case["seed"])
+                os.environ["SOURCE_DATE_EPOCH"] = str(ep)
+                try:
+                    if w == "write_snapshot":
+                        path = S.write_snapshot(ctx, st, case["versions"][k], k, [])
+                        body_marker = json.loads(open(path, encoding="utf-8").read()).get("schema_version")
+                    else:
+                        payload = dict(base_payload, version_etag=case["versions"][k], turn=k)
+                        path, wrote_delta = S.write_snapshot_auto(
+                            d, etag_from="base0" if w == "auto_delta" else None, etag_to=case["etag"],
+                            payload=payload, delta_mode=(w == "auto_delta"))
+                        body_marker = "v1" if (wrote_delta == (w == "auto_delta")) else "wrong-file-kind"
+                    rec = self._read_sidecar(path)
+                    rec["path_ok"] = os.path.basename(path) == fname
+                    rec["body_marker"] = body_marker
+                except Exception as e:  # a writer that raises has not written a snapshot
+                    rec = {"raised": type(e).__name__}
+                out["writes"].append(rec)
+            out["listing"] = sorted(os.listdir(d))
+            return out
+        finally:
+            if old_env is None:
+                os.environ.pop("SOURCE_DATE_EPOCH", None)
+            else:
+                os.environ["SOURCE_DATE_EPOCH"] = old_env
+            shutil.rmtree(d, ignore_errors=True)
+
+    @staticmethod
+    def _read_sidecar(path: str) -> dict:
+        mp = path + ".meta"
+        if os.path.isdir(mp):
+            return {"kind": "dir"}
+        if not os.path.exists(mp):
+            return {"kind": "missing"}
+        with open(mp, "rb") as f:
+            raw = f.read()
+        try:
+            return {"kind": "file", "text": raw.decode("utf-8")}
+        except Exception:
+            return {"kind": "file", "text": None}
+
+    def request_raw(self, case):
+        eps = list(case["epochs"]) + ([946684800] if case["writer"] == "auto_delta" else [])
+        return {"c": "snap.sidecar", "created": [cps(_iso(e)) for e in eps]}
+
+    @staticmethod
+    def _expected_text(model_j) -> str:
+        return json.dumps(dec(model_j), ensure_ascii=False) + "\n"
+
+    def compare_raw(self, case, io, mo):
+        if isinstance(io, dict) and "__raised__" in io:
+            return f"implementation raised {io}"
+        if not isinstance(mo, list):
+            return f"model error {mo}"
+        blocked = case["seed"] == "meta_is_dir"
+        for k, rec in enumerate(io["writes"]):
+            if "raised" in rec:
+                return f"write #{k} raised {rec['raised']}"
+            if blocked:
+                if rec["kind"] != "dir":
+                    return f"write #{k}: sidecar path was a directory, now {rec['kind']}"
+                continue
+            if rec["kind"] != "file" or rec["text"] != self._expected_text(mo[k]):
+                return f"write #{k}: sidecar {rec.get('text')!r} model {self._expected_text(mo[k])!r}"
+        if case["writer"] == "auto_delta" and case["seed_baseline"] != "meta_is_dir":
+            b = io["baseline"]
+            if b["kind"] != "file" or b["text"] != self._expected_text(mo[-1]):
+                return f"baseline sidecar {b.get('text')!r} model {self._expected_text(mo[-1])!r}"
+        return None
+
+    def monitors_raw(self, case, io):
+        res = []
+        recs = [(f"write #{k}", r, case["epochs"][k], case["seed"]) for k, r in enumerate(io["writes"])]
+        if case["writer"] == "auto_delta":
+            recs.append(("baseline write", io["baseline"], 946684800, case["seed_baseline"]))
+            res.append(("delta_writer_wrote_expected_files", io["baseline_ok"], f"listing {io['listing']}"))
+        for what, r, ep, seed in recs:
+            if "raised" in r:
+                res.append(("writer_does_not_raise_on_foreign_sidecar", False, f"{what} raised {r['raised']} (pre-existing sidecar shape {seed})"))
+                continue
+            if "path_ok" in r:
+                res.append(("writer_wrote_expected_file", r["path_ok"] and r["body_marker"] == "v1",
+                            f"{what}: path_ok={r['path_ok']} body marker {r['body_marker']!r}"))
+            if seed == "meta_is_dir":
+                continue  # the sidecar cannot be written at all (its path is a directory); the body write still succeeded
+            ok_parse, obj = True, None
+            try:
+                obj = json.loads(r["text"]) if r["kind"] == "file" and r["text"] is not None else None
+            except Exception:
+                ok_parse = False
+            res.append(("sidecar_parses_after_write", ok_parse and isinstance(obj, dict),
+                        f"{what}: sidecar {r.get('text')!r} (pre-existing shape {seed})"))
+            res.append(("sidecar_carries_frozen_marker", isinstance(obj, dict) and obj.get("schema_version") == "v1",
+                        f"{what}: sidecar {r.get('text')!r} after a write over a pre-existing sidecar of shape {seed}"))
+            exp = {"created_at": _iso(ep), "schema_version": "v1"}
+            res.append(("sidecar_is_a_function_of_the_write",
+                        obj == exp and r["text"] == json.dumps(exp, ensure_ascii=False, sort_keys=True) + "\n",
+                        f"{what}: sidecar {r.get('text')!r}, expected exactly {exp} (pre-existing shape {seed})"))
+        return res
+
+    def monitor_requests_raw(self, case, io):
+        rq = []
+        recs = list(zip(io["writes"], [case["seed"]] * len(io["writes"])))
+        if case["writer"] == "auto_delta":
+            recs.append((io["baseline"], case["seed_baseline"]))
+        for r, seed in recs:
+            if "raised" in r or seed == "meta_is_dir":
+                continue
+            try:
+                obj = json.loads(r["text"])
+                w = enc(obj)
+            except Exception:
+                w = None
+            rq.append(("lean.sidecar_marker", {"c": "snap.mon", "k": "marker", "p": w}))
+        return rq
+
+    def tags_raw(self, case, io):
+        t = {"seed_" + case["seed"], "writer_" + case["writer"], "writes_%d" % len(case["epochs"])}
+        if case["reseed_between"] and len(case["epochs"]) > 1:
+            t.add("reseeded_between_writes")
+        if len(set(case["epochs"])) > 1:
+            t.add("clock_moves")
+        return sorted(t)
+
+    def shrink_raw(self, case):
+        if len(case["epochs"]) > 1:
+            yield dict(case, epochs=case["epochs"][:-1], versions=case["versions"][:-1])
+            yield dict(case, epochs=case["epochs"][1:], versions=case["versions"][1:])
+        if case["reseed_between"]:
+            yield dict(case, reseed_between=False)
+        if case["writer"] != "write_snapshot":
+            yield dict(case, writer="write_snapshot")
+
 # --------------------------------------------------------------------------
 # component 5: round(x, 6) — bit-exact reimplementation and the assumed laws
 # --------------------------------------------------------------------------
@@ -1696,7 +1917,7 @@ class RoundComp(Wrapped):
         return ["batch"]
 
 
-COMPONENTS = [ChainComp(), HistoryComp(), SanitizeComp(), LoadComp(), PickComp(), TempComp(), RoundComp()]
+COMPONENTS = [ChainComp(), HistoryComp(), SanitizeComp(), LoadComp(), PickComp(), TempComp(), SidecarComp(), RoundComp()]
 
 
 def _setup(ctx: Ctx) -> None:
